@@ -101,6 +101,13 @@ func interiorOK(b *ssa.BasicBlock) bool {
 type edge struct{ from, to *ssa.BasicBlock }
 
 func computeRegion(head *ssa.BasicBlock) *region {
+	if r := computeRegionMode(head, false); r != nil {
+		return r
+	}
+	return computeRegionMode(head, true)
+}
+
+func computeRegionMode(head *ssa.BasicBlock, eagerExits bool) *region {
 	rg := &region{head: head, exits: map[*ssa.BasicBlock]bool{}}
 	open := map[edge]int{}
 	for _, s := range head.Succs {
@@ -119,26 +126,32 @@ func computeRegion(head *ssa.BasicBlock) *region {
 			}
 			break
 		}
-		targets := map[*ssa.BasicBlock]bool{}
-		for t := range all {
-			if isExit(t) {
-				rg.exits[t] = true
-			} else {
-				targets[t] = true
+		if eagerExits {
+			nonExit := map[*ssa.BasicBlock]bool{}
+			for t := range all {
+				if isExit(t) {
+					rg.exits[t] = true
+				} else {
+					nonExit[t] = true
+				}
+			}
+			if len(nonExit) == 1 {
+				for t := range nonExit {
+					rg.join = t
+				}
+				break
+			}
+			if len(nonExit) == 0 {
+				return nil
 			}
 		}
-		if len(targets) == 1 {
-			for t := range targets {
-				rg.join = t
-			}
-			break
-		}
-		if len(targets) == 0 {
-			return nil // every arm exits: plain fork is as good
-		}
-		// pick a processable target
+		// pick a processable interior target first; exits are only split off when nothing else
+		// can be absorbed (a Return block reached from every arm is the join, not an exit)
 		var pick *ssa.BasicBlock
-		for t := range targets {
+		for t := range all {
+			if rg.exits[t] {
+				continue
+			}
 			if inRegion[t] {
 				return nil // cycle
 			}
@@ -151,11 +164,39 @@ func computeRegion(head *ssa.BasicBlock) *region {
 			if have != len(t.Preds) {
 				continue
 			}
+			if isExit(t) {
+				continue
+			}
 			if interiorOK(t) {
 				if pick == nil || t.Index < pick.Index {
 					pick = t
 				}
 			}
+		}
+		if pick == nil {
+			targets := map[*ssa.BasicBlock]bool{}
+			newExit := false
+			for t := range all {
+				if rg.exits[t] {
+					continue
+				}
+				if isExit(t) {
+					rg.exits[t] = true
+					newExit = true
+				} else {
+					targets[t] = true
+				}
+			}
+			if len(targets) == 1 {
+				for t := range targets {
+					rg.join = t
+				}
+				break
+			}
+			if len(targets) == 0 || !newExit {
+				return nil
+			}
+			return nil
 		}
 		if pick == nil {
 			return nil
